@@ -6,10 +6,56 @@
     cut within two periods).  Not proved: a bound on the total work (it is
     exponential in the worst case: known finding), and totality of the ~140
     parser functions, which is decided by running every one of them on
-    generated argument vectors on each run. *)
-From Coq Require Import List NArith Bool Arith.
+    generated argument vectors on each run -- except for the one recursive
+    parser among them, #expr: its ladder machine (Model/ExprParse.v, over the
+    ladder regenerated from the source) is proved total, with a nesting depth
+    of calls linear in the number of tokens. *)
+From Coq Require Import List NArith Bool Arith String Lia.
 From WTP Require Import Base.Str Model.Expand Proofs.LoopProofs.
+From WTP Require Model.ExprParse Model.ExprTotal Proofs.ExprTotalProofs Gen.GenLadder.
 Import ListNotations.
+Local Open Scope list_scope.
+
+(* The recursive-descent parser of #expr as a ladder machine with explicit fuel = nesting depth of recursive calls
+   (Model/ExprTotal.v, which erases to the machine of Model/ExprParse.v that is compared with expr_fn on every run).
+   For EVERY token list and any ladder: with fuel n*(L+3)+L+2 (n tokens, L ladder levels) it ends in a tree or in a
+   syntax error, never out of fuel; more fuel never changes the answer.  So the parser terminates on every input,
+   and the depth of its recursion grows linearly with the input (which is why 150 nested parentheses used to exhaust
+   Python's stack: repaired by fix 9fad23b, which reports that in-band). *)
+Module ExprTotality.
+Import ExprParse ExprTotal ExprTotalProofs GenLadder.
+Definition conv (l : list (level_kind * list string)) : list level :=
+  map (fun x => (match fst x with BinaryLeft => LBin | PrefixFns => LPre end, snd x)) l.
+
+Theorem c05_expr_parser_never_runs_out_of_fuel :
+  forall full ts f, (bound full (List.length ts) (List.length full) <= f)%nat -> parse3 full f full ts <> OutOfFuel.
+Proof. exact never_out_of_fuel. Qed.
+Print Assumptions c05_expr_parser_never_runs_out_of_fuel.
+
+Theorem c05_expr_parser_answer_is_stable :
+  forall full ts f, (bound full (List.length ts) (List.length full) <= f)%nat ->
+    parse3 full f full ts = parse3 full (bound full (List.length ts) (List.length full)) full ts.
+Proof. exact answer_is_stable. Qed.
+Print Assumptions c05_expr_parser_answer_is_stable.
+
+Theorem c05_expr_total_machine_is_the_compared_machine :
+  forall full f lv ts, erase (parse3 full f lv ts) = ExprParse.parse full f lv ts.
+Proof. intros full f. exact (proj1 (erase_both full f)). Qed.
+Print Assumptions c05_expr_total_machine_is_the_compared_machine.
+
+(* for the ladder of the current source: 9 levels, so 12 n + 11 nested calls at most for n tokens *)
+Theorem c05_expr_parser_total_for_the_current_ladder :
+  forall ts f, (List.length ts * 12 + 11 <= f)%nat -> parse3 (conv ladder) f (conv ladder) ts <> OutOfFuel.
+Proof. intros ts f Hf. apply never_out_of_fuel.
+  assert (E : List.length (conv ladder) = 9%nat) by reflexivity. unfold bound. rewrite E. lia. Qed.
+Print Assumptions c05_expr_parser_total_for_the_current_ladder.
+
+Example c05_expr_total_example :
+  parse3 (conv ladder) 200 (conv ladder) [TLp; TNum 1; TOp "+"; TNum 2; TRp; TOp "*"; TOp "-"; TNum 3]
+    = Ok (GBin "*" (GBin "+" (GNum 1) (GNum 2)) (GUn "-" (GNum 3))) []
+  /\ parse3 (conv ladder) 200 (conv ladder) [TLp; TNum 1; TOp "+"] = Syntax.
+Proof. split; vm_compute; reflexivity. Qed.
+End ExprTotality.
 
 (* at a path length of 100 a call is not expanded: the error element is returned *)
 Theorem c05_depth_limit_inband :
